@@ -1,4 +1,5 @@
 import SwiftMT.Props.C05
+import SwiftMT.Fields.Registry
 /-
 C07 — parsing is total: a value or an error, never a panic.
 
@@ -62,6 +63,475 @@ theorem total_amount_fields (s : Text) (pos : Bool) :
     all_goals first | (rename_i hh; first | exact absurd hh (hcur _) | exact absurd hh (hamt _ _ _)) | simp
   · unfold F19.parse Res.ofOption
     split <;> simp
+
+/-! ### Fields whose code slices by byte offsets: the guards in front of the slices exclude every panic
+
+The models of 11, 13D and 23E keep the slicing primitive `bslice` / `bto` / `bfrom` (which panics off a character
+boundary or out of range, like `&s[a..b]`) exactly where the Rust slices.  The theorems show that the ASCII and length
+guards that the `fix:` commits put in front make the `panic` outcome unreachable for every text. -/
+
+theorem bind_no_panic {α β : Type} (x : Res α) (f : α → Res β) (hx : x ≠ .panic) (hf : ∀ a, x = .ok a → f a ≠ .panic) :
+    (x >>= f) ≠ .panic := by
+  cases x with
+  | ok a => exact hf a rfl
+  | err => simp
+  | panic => exact absurd rfl hx
+
+theorem guard_no_panic (b : Bool) : Res.guard b ≠ .panic := by
+  unfold Res.guard; split <;> simp
+
+theorem ofOption_no_panic {α : Type} (o : Option α) : Res.ofOption o ≠ .panic := by
+  cases o <;> simp [Res.ofOption]
+
+theorem total_11 (s : Text) : F11.parse s ≠ .panic := by
+  unfold F11.parse
+  split; · simp
+  rename_i hasc
+  split; · simp
+  rename_i hlen
+  have ha : isAsciiT s = true := by simpa using hasc
+  have hl : s.length = 9 := by
+    have : blen s = 9 := by simpa using hlen
+    rw [blen_ascii s ha] at this; exact this
+  rw [bto_ascii s 3 ha (by omega)]
+  simp only [Res.bind_ok]
+  apply bind_no_panic _ _ (guard_no_panic _)
+  intro _ _
+  rw [bslice_ascii s 3 9 ha (by omega) (by omega)]
+  simp only [Res.bind_ok]
+  apply bind_no_panic _ _ (guard_no_panic _)
+  intro _ _
+  apply bind_no_panic _ _ (ofOption_no_panic _)
+  intro d _
+  simp
+
+theorem offsetOk_no_panic (off : Text) (hd : off.all Char.isDigit = true) (hl : off.length = 4) :
+    offsetOk off ≠ .panic := by
+  have ha := all_digit_ascii off hd
+  unfold offsetOk
+  rw [bslice_ascii off 0 2 ha (by omega) (by omega), bslice_ascii off 2 4 ha (by omega) (by omega)]
+  simp only [Res.bind_ok]
+  have h1 : ((off.drop 0).take (2 - 0)).isEmpty = false := by
+    match off, hl with
+    | [a, b, c, d], _ => rfl
+  have h2 : ((off.drop 2).take (4 - 2)).isEmpty = false := by
+    match off, hl with
+    | [a, b, c, d], _ => rfl
+  simp only [h1, h2, Bool.false_eq_true, if_false, Res.unwrap, Res.bind_ok]
+  split <;> simp
+
+theorem total_13D (s : Text) : F13D.parse s ≠ .panic := by
+  unfold F13D.parse
+  split; · simp
+  rename_i hasc
+  split; · simp
+  rename_i hlen
+  have ha : isAsciiT s = true := by simpa using hasc
+  have hl : s.length = 15 := by
+    have : blen s = 15 := by simpa using hlen
+    rw [blen_ascii s ha] at this; exact this
+  rw [bslice_ascii s 0 6 ha (by omega) (by omega)]
+  simp only [Res.bind_ok]
+  apply bind_no_panic _ _ (ofOption_no_panic _)
+  intro date _
+  rw [bslice_ascii s 6 10 ha (by omega) (by omega)]
+  simp only [Res.bind_ok]
+  apply bind_no_panic _ _ (guard_no_panic _)
+  intro _ _
+  apply bind_no_panic _ _ (ofOption_no_panic _)
+  intro time _
+  have hget : ∃ c, s[10]? = some c := by
+    have : 10 < s.length := by omega
+    exact ⟨s[10], List.getElem?_eq_getElem this⟩
+  obtain ⟨c, hc⟩ := hget
+  rw [hc]
+  simp only [Res.unwrap, Res.bind_ok]
+  split; · simp
+  rw [bslice_ascii s 11 15 ha (by omega) (by omega)]
+  simp only [Res.bind_ok]
+  apply bind_no_panic
+  · unfold parseExactLength; split <;> simp
+  intro off _
+  apply bind_no_panic _ _ (guard_no_panic _)
+  intro _ _
+  rename_i hoff _ hdig
+  have hdig' : off.all Char.isDigit = true := by
+    unfold Res.guard at hdig; split at hdig
+    · assumption
+    · simp at hdig
+  have hlen' : off.length = 4 := by
+    unfold parseExactLength at hoff
+    split at hoff
+    · rename_i hb
+      have : off = List.take (15 - 11) (List.drop 11 s) := by simpa using hoff.symm
+      subst this
+      simp [List.length_take, List.length_drop]; omega
+    · simp at hoff
+  apply bind_no_panic _ _ (offsetOk_no_panic off hdig' hlen')
+  intro _ _
+  simp
+
+theorem isAsciiT_drop (t : Text) (n : Nat) (h : isAsciiT t = true) : isAsciiT (t.drop n) = true := by
+  unfold isAsciiT at *
+  rw [List.all_eq_true] at *
+  intro c hc; exact h c (List.mem_of_mem_drop hc)
+
+theorem total_11RS (s : Text) : F11RS.parse s ≠ .panic := by
+  unfold F11RS.parse
+  split; · simp
+  rename_i hasc
+  split; · simp
+  rename_i hlen
+  have ha : isAsciiT s = true := by simpa using hasc
+  have hl : 3 ≤ s.length := by
+    have : ¬ blen s < 3 := by simpa using hlen
+    rw [blen_ascii s ha] at this; omega
+  rw [bto_ascii s 3 ha hl, bfrom_ascii s 3 ha hl]
+  simp only [Res.bind_ok]
+  apply bind_no_panic _ _ (guard_no_panic _)
+  intro _ _
+  have ha3 := isAsciiT_drop s 3 ha
+  split; · simp
+  rename_i hlen2
+  have hl2 : 6 ≤ (s.drop 3).length := by
+    have : ¬ blen (s.drop 3) < 6 := by simpa using hlen2
+    rw [blen_ascii _ ha3] at this; omega
+  rw [bto_ascii _ 6 ha3 hl2, bfrom_ascii _ 6 ha3 hl2]
+  simp only [Res.bind_ok]
+  apply bind_no_panic _ _ (guard_no_panic _)
+  intro _ _
+  apply bind_no_panic _ _ (ofOption_no_panic _)
+  intro date _
+  split; · simp
+  have ha9 := isAsciiT_drop _ 6 ha3
+  split
+  · simp
+  · simp
+  · simp
+  · rename_i h10
+    have : 4 ≤ ((s.drop 3).drop 6).length := by
+      rw [blen_ascii _ ha9] at h10; omega
+    rw [bto_ascii _ 4 ha9 this, bfrom_ascii _ 4 ha9 this]
+    simp
+  · simp
+
+theorem total_23E (s : Text) : F23E.parse s ≠ .panic := by
+  unfold F23E.parse
+  split; · simp
+  rename_i hasc
+  split; · simp
+  rename_i hlen
+  have ha : isAsciiT s = true := by simpa using hasc
+  have hl : 4 ≤ s.length := by
+    have : ¬ blen s < 4 := by simpa using hlen
+    rw [blen_ascii s ha] at this; omega
+  rw [bslice_ascii s 0 4 ha (by omega) hl]
+  simp only [Res.bind_ok]
+  split; · simp
+  split
+  · rename_i hgt
+    have hl5 : 5 ≤ s.length := by
+      have : blen s > 4 := by simpa using hgt
+      rw [blen_ascii s ha] at this; omega
+    rw [bfrom_ascii s 4 ha (by omega), bfrom_ascii s 5 ha hl5]
+    simp only [Res.bind_ok]
+    split; · simp
+    split; · simp
+    split; · simp
+    apply bind_no_panic _ _ (guard_no_panic _)
+    intro _ _
+    simp
+  · simp
+
+theorem total_23 (s : Text) : F23.parse s ≠ .panic := by
+  unfold F23.parse
+  split; · simp
+  rename_i hasc
+  split; · simp
+  rename_i hlen
+  have ha : isAsciiT s = true := by simpa using hasc
+  have hb := blen_ascii s ha
+  have hl : 4 ≤ s.length := by
+    have : ¬ blen s < 4 := by simpa using hlen
+    omega
+  rw [bslice_ascii s 0 3 ha (by omega) (by omega)]
+  simp only [Res.bind_ok]
+  apply bind_no_panic _ _ (guard_no_panic _)
+  intro _ _
+  have tailOk : ∀ (days : Option Nat) (k : Nat), k ≤ 5 →
+      (if blen s > k then (do
+          let r ← bfrom s k
+          if blen r > 11 then Res.err else do
+          parseSwiftChars r
+          pure (⟨(s.drop 0).take (3 - 0), days, r⟩ : F23))
+        else Res.err) ≠ .panic := by
+    intro days k hk
+    split
+    · rename_i hgt
+      rw [bfrom_ascii s k ha (by omega)]
+      simp only [Res.bind_ok]
+      split; · simp
+      apply bind_no_panic _ _ (guard_no_panic _)
+      intro _ _; simp
+    · simp
+  split
+  · rename_i h5
+    rw [bslice_ascii s 3 5 ha (by omega) (by omega)]
+    simp only [Res.bind_ok]
+    split
+    · split; · simp
+      split; · simp
+      simp only [Res.pure_eq, Res.bind_ok]
+      exact tailOk _ 5 (by omega)
+    · simp only [Res.pure_eq, Res.bind_ok]
+      exact tailOk _ 3 (by omega)
+  · simp only [Res.pure_eq, Res.bind_ok]
+    exact tailOk _ 3 (by omega)
+
+theorem total_13C (s : Text) : F13C.parse s ≠ .panic := by
+  unfold F13C.parse
+  split; · simp
+  rename_i hasc
+  split; · simp
+  have ha : isAsciiT s = true := by simpa using hasc
+  split
+  · rename_i rest _
+    split; · simp
+    rename_i p _
+    simp only
+    split; · simp
+    split; · simp
+    split; · simp
+    rename_i hlen
+    have har : isAsciiT (rest.drop (p + 1)) = true := by
+      have : isAsciiT rest = true := by
+        have := isAsciiT_drop ('/' :: rest) 1 ha
+        simpa using this
+      exact isAsciiT_drop rest (p + 1) this
+    generalize rest.drop (p + 1) = rem at *
+    have hl : rem.length = 9 := by
+      have : blen rem = 9 := by simpa using hlen
+      rw [blen_ascii rem har] at this; exact this
+    rw [bslice_ascii rem 0 4 har (by omega) (by omega)]
+    simp only [Res.bind_ok]
+    apply bind_no_panic _ _ (guard_no_panic _)
+    intro _ _
+    apply bind_no_panic _ _ (ofOption_no_panic _)
+    intro time _
+    obtain ⟨c, hc⟩ : ∃ c, rem[4]? = some c := ⟨rem[4], List.getElem?_eq_getElem (by omega)⟩
+    rw [hc]
+    simp only [Res.unwrap, Res.bind_ok]
+    split; · simp
+    rw [bslice_ascii rem 5 9 har (by omega) (by omega)]
+    simp only [Res.bind_ok]
+    apply bind_no_panic
+    · unfold parseExactLength; split <;> simp
+    intro off hoff
+    apply bind_no_panic _ _ (guard_no_panic _)
+    intro _ hdig
+    have hdig' : off.all Char.isDigit = true := by
+      unfold parseNumeric Res.guard at hdig; split at hdig
+      · assumption
+      · simp at hdig
+    have hlen' : off.length = 4 := by
+      unfold parseExactLength at hoff
+      split at hoff
+      · have : off = List.take (9 - 5) (List.drop 5 rem) := by simpa using hoff.symm
+        subst this
+        simp [List.length_take, List.length_drop]; omega
+      · simp at hoff
+    apply bind_no_panic _ _ (offsetOk_no_panic off hdig' hlen')
+    intro _ _
+    simp
+  · simp
+
+theorem parseUInt_no_panic (t : Text) (m : Nat) : parseUInt t m ≠ .panic := by
+  unfold parseUInt; simp only; repeat' split
+  all_goals simp
+
+theorem parseExactLength_no_panic (t : Text) (n : Nat) : parseExactLength t n ≠ .panic := by
+  unfold parseExactLength; split <;> simp
+
+theorem parseMaxLength_no_panic (t : Text) (n : Nat) : parseMaxLength t n ≠ .panic := by
+  unfold parseMaxLength; split <;> simp
+
+theorem total_stmt (a b : Nat) (s : Text) : Stmt.parse a b s ≠ .panic := by
+  unfold Stmt.parse
+  simp only
+  split; · simp
+  split; · simp
+  apply bind_no_panic _ _ (guard_no_panic _)
+  intro _ _
+  apply bind_no_panic _ _ (parseUInt_no_panic _ _)
+  intro n _
+  split
+  · split; · simp
+    apply bind_no_panic _ _ (guard_no_panic _)
+    intro _ _
+    apply bind_no_panic _ _ (parseUInt_no_panic _ _)
+    intro _ _; simp
+  · simp
+
+theorem total_28D (s : Text) : F28D.parse s ≠ .panic := by
+  unfold F28D.parse
+  simp only
+  split; · simp
+  apply bind_no_panic _ _ (guard_no_panic _)
+  intro _ _
+  apply bind_no_panic _ _ (parseUInt_no_panic _ _)
+  intro n _
+  split
+  · simp
+  · split; · simp
+    apply bind_no_panic _ _ (guard_no_panic _)
+    intro _ _
+    apply bind_no_panic _ _ (parseUInt_no_panic _ _)
+    intro _ _
+    repeat' split
+    all_goals simp
+
+theorem total_26T (s : Text) : F26T.parse s ≠ .panic := by
+  unfold F26T.parse
+  apply bind_no_panic _ _ (parseExactLength_no_panic _ _)
+  intro _ _; split <;> simp
+
+theorem total_25 (s : Text) : F25.parse s ≠ .panic := by
+  unfold F25.parse
+  simp only
+  apply bind_no_panic _ _ (parseMaxLength_no_panic _ _)
+  intro _ _
+  split; · simp
+  apply bind_no_panic _ _ (guard_no_panic _)
+  intro _ _; simp
+
+theorem total_25A (s : Text) : F25A.parse s ≠ .panic := by
+  unfold F25A.parse
+  split
+  · split; · simp
+    split; · simp
+    apply bind_no_panic _ _ (guard_no_panic _)
+    intro _ _; simp
+  · simp
+
+theorem total_narrL (ml mx : Nat) (s : Text) : NarrL.parse ml mx s ≠ .panic := by
+  unfold NarrL.parse validateMultilineText
+  repeat' split
+  all_goals simp
+
+theorem total_77T (s : Text) : F77T.parse s ≠ .panic := by
+  unfold F77T.parse
+  repeat' split
+  all_goals simp
+
+theorem total_51A (s : Text) : F51A.parse s ≠ .panic := by
+  have hvia : F51A.viaNl s ≠ .panic := by
+    unfold F51A.viaNl
+    repeat' split
+    all_goals first | (rename_i hh; exact absurd hh (pid_no_panic _)) | simp
+  unfold F51A.parse
+  repeat' split
+  all_goals first
+    | (rename_i hh; first | exact absurd hh hvia | exact absurd hh (parseBic_no_panic _))
+    | simp
+
+theorem f61_tail_no_panic (d : YMD) (e : Option Text) (dc : Text) (f : Option Char) (a : Dec) (r : Text) :
+    F61.tailPart d e dc f a r ≠ .panic := by
+  unfold F61.tailPart; simp only
+  repeat' split
+  all_goals simp
+
+theorem f61_amount_no_panic (d : YMD) (e : Option Text) (dc r : Text) : F61.amountPart d e dc r ≠ .panic := by
+  unfold F61.amountPart; simp only
+  repeat' split
+  all_goals first | exact f61_tail_no_panic _ _ _ _ _ _ | simp
+
+theorem total_rates_and_statement_line (s : Text) :
+    F36.parse s ≠ .panic ∧ F37H.parse s ≠ .panic ∧ F61.parse s ≠ .panic := by
+  refine ⟨?_, ?_, ?_⟩
+  · unfold F36.parse; repeat' split
+    all_goals simp
+  · unfold F37H.parse; repeat' split
+    all_goals simp
+  · unfold F61.parse
+    split; · simp
+    split; · simp
+    split; · simp
+    simp only
+    repeat' split
+    all_goals first | exact f61_amount_no_panic _ _ _ _ | simp
+
+theorem total_90 (s : Text) : F90.parse s ≠ .panic := by
+  have hcur : ∀ t, parseCurrency t ≠ .panic := by
+    intro t; unfold parseCurrency; repeat' split
+    all_goals simp
+  unfold F90.parse; simp only; repeat' split
+  all_goals first | (rename_i hh; exact absurd hh (hcur _)) | simp
+
+/-! ### every field model of the registry at once
+
+`registry` is the table the driver answers the field correspondence stream from (one entry per modelled field type of
+src/fields); the theorem says that no entry has the outcome `panic` on any text. -/
+
+theorem withTag_no_panic {α : Type} (tag : String) (r : Res α) (ser : α → Text) (json : α → J) (h : r ≠ .panic) :
+    withTag tag r ser json ≠ .panic := by
+  unfold withTag; split
+  · simp
+  · simp
+  · exact absurd rfl h
+
+theorem registry_total : ∀ e ∈ registry, ∀ s : Text, e.2 s ≠ .panic := by
+  intro e he s
+  unfold registry at he
+  simp only [List.mem_cons, List.mem_nil_iff, or_false] at he
+  have hstmt28 : F28.parse s ≠ .panic := total_stmt _ _ s
+  have hstmt28C : F28C.parse s ≠ .panic := total_stmt _ _ s
+  repeat' (rcases he with he | he)
+  all_goals (
+    simp only [refField, narr, narrL]
+    apply withTag_no_panic
+    first
+      | exact total_reference _ s | exact total_narrative _ _ s | exact total_narrL _ _ s
+      | exact (total_codes s).1 | exact (total_codes s).2.1 | exact (total_codes s).2.2.1 | exact (total_codes s).2.2.2
+      | exact total_26T s | exact total_25 s | exact total_25A s | exact hstmt28 | exact hstmt28C | exact total_28D s
+      | exact total_13C s | exact total_13D s | exact total_11RS s | exact total_11 s | exact total_23 s | exact total_23E s
+      | exact optA_no_panic s | exact optC_no_panic s | exact optD_no_panic s | exact optB_no_panic s
+      | exact (customer_fields_no_panic s).1 | exact (customer_fields_no_panic s).2.1
+      | exact (customer_fields_no_panic s).2.2.1 | exact (customer_fields_no_panic s).2.2.2.1
+      | exact (customer_fields_no_panic s).2.2.2.2.1 | exact (customer_fields_no_panic s).2.2.2.2.2.1
+      | exact (customer_fields_no_panic s).2.2.2.2.2.2
+      | exact parseBic_no_panic s | exact total_51A s | exact total_77T s)
+
+/-- the count the statement is about: every entry of the registry, none left out -/
+example : registry.length = 63 := by decide
+
+/-- the amount-bearing entries (`registryPartial`: a model answer only inside the region where f64 and exact decimals
+agree) — whenever the model answers, the answer is not `panic` -/
+theorem ite_none_some {α : Type} {c : Prop} [Decidable c] {x r : α} (h : (if c then none else some x) = some r) : r = x := by
+  split at h
+  · cases h
+  · cases h; rfl
+
+theorem registryPartial_total : ∀ e ∈ registryPartial, ∀ (s : Text) (r : Res (Text × J)), e.2 s = some r → r ≠ .panic := by
+  intro e he s r hr
+  unfold registryPartial at he
+  simp only [List.mem_cons, List.mem_nil_iff, or_false] at he
+  have hamt := total_amount_fields s
+  have hrates := total_rates_and_statement_line s
+  repeat' (rcases he with he | he)
+  all_goals (
+    simp only at hr
+    first
+      | (have hx := ite_none_some hr
+         subst hx
+         apply withTag_no_panic
+         first
+           | exact hrates.2.2 | exact hrates.2.1 | exact total_90 s | exact (hamt true).1 | exact (hamt false).1
+           | exact (hamt true).2.1 | exact (hamt true).2.2.1 | exact (hamt true).2.2.2.1 | exact (hamt true).2.2.2.2)
+      | (cases hr
+         apply withTag_no_panic
+         exact hrates.1))
+
+example : registryPartial.length = 20 := by decide
 
 /-- Byte slicing is the only primitive that can panic, and it cannot on ASCII text within bounds. -/
 theorem slice_total_on_ascii (t : Text) (a b : Nat) (h : isAsciiT t = true) (hab : a ≤ b) (hb : b ≤ t.length) :
